@@ -55,7 +55,11 @@ try:
     rc, out = sh(["go", "build", "./..."], cwd=wt)
     res["compiles"] = rc == 0
     if not a.skip_suite:
-        rc, out = sh(["go", "test", "-vet=off", "-count=1", "./..."], cwd=wt)
+        # the suite binds fixed ports (9526/9527): run it in a private network namespace so that concurrent suites
+        # (sub-agents, other evaluations) cannot make it fail with "address already in use"
+        rc, out = sh(["unshare", "-n", "sh", "-c", "ip link set lo up && go test -vet=off -count=1 ./..."], cwd=wt)
+        if rc != 0 and "address already in use" in out:
+            rc, out = sh(["go", "test", "-vet=off", "-count=1", "./..."], cwd=wt)
         res["suite_passes_with_change"] = rc == 0
         if rc != 0:
             res["suite_output"] = out[-2000:]
@@ -78,6 +82,7 @@ try:
         res["checks"][p] = {"exit": rc, "wall_s": round(time.time() - t0, 1), "signatures": sigs[:6], "infra": [l for l in out.splitlines() if l.startswith("INFRA")][:3]}
         print("%s: %s exit=%d %.0fs %s" % (name, p, rc, time.time() - t0, "; ".join(sigs[:3])), flush=True)
     res["caught_by"] = [p for p, r in res["checks"].items() if r["exit"] == 1]
+    res["infra_trouble"] = {p: r["infra"] for p, r in res["checks"].items() if r["exit"] not in (0, 1)}
     shutil.rmtree(outdir, ignore_errors=True)
 finally:
     subprocess.run(["git", "-C", "/repo", "worktree", "remove", "--force", wt], stdout=subprocess.DEVNULL, stderr=subprocess.DEVNULL)
